@@ -101,6 +101,11 @@ class Walk:
             return self.read_place(env, op["m"])
         k = op.get("k")
         if isinstance(k, dict):
+            if k.get("promoted") is not None and k.get("uneval") and "[" in (k.get("ty") or ""):
+                # a promoted array / slice of constants (`&["OK", "OK."]`): the list, not one of its strings
+                pv = self._promoted("%s::{promoted#%s}" % (k["uneval"], k["promoted"]))
+                if pv != TOP:
+                    return pv
             s = self.ctx.facts.const_str(k)
             if s is not None:
                 return const(s)
